@@ -2,7 +2,7 @@
    Statements only; every proof is [exact <lemma>]. *)
 From Coq Require Import List NArith ZArith Bool.
 From MevVerif Require Import lib.Bytes lib.Abi model.Rules model.ProviderSvc model.PreconfProvider
-  proofs.PreconfProvider_proofs.
+  proofs.PreconfProvider_proofs proofs.PreconfProvider_traces.
 Import ListNotations.
 Open Scope N_scope.
 
@@ -53,7 +53,14 @@ Theorem C07_destination : forall K addr evs h to cd,
   In (HSend h to cd) (heff (run K rules_validators (node_wiring addr) evs)) -> to = addr.
 Proof. exact (fun K addr => send_destination K rules_validators (node_wiring addr)). Qed.
 Print Assumptions C07_destination.
-(* C07_order_partial note: "store error => the bidder receives an error and no commitment" is shown on
-   the model by example (ex_store_failure) and compared on every store-failure case of the
-   correspondence check (clause commitment-after-store-failure); the universally quantified form
-   (no HWrite of a handler whose submission failed) is not proved here. *)
+
+(* If the submission fails, the bidder receives an error instead of a commitment: for every event list,
+   a handler whose Send failed has returned Internal "failed to store commitment" (RStore), and no
+   commitment was or will ever be written by it (the statement holds for every extension of the list). *)
+Theorem C07_store_failure : forall K addr evs h,
+  In (HStored h false) (heff (run K rules_validators (node_wiring addr) evs)) ->
+  nget h (hs (run K rules_validators (node_wiring addr) evs)) = Some (HDone RStore) /\
+  In (HReturn h RStore) (heff (run K rules_validators (node_wiring addr) evs)) /\
+  forall c, ~ In (HWrite h c) (heff (run K rules_validators (node_wiring addr) evs)).
+Proof. exact (fun K addr => store_failure K rules_validators (node_wiring addr)). Qed.
+Print Assumptions C07_store_failure.
